@@ -276,7 +276,9 @@ func (dec *Decoder) DiscardLine() (nonSyncLiteral bool) {
 		sb.WriteByte(b)
 	}
 	dec.crlf = true
+	// Same line ending as CRLF(): an optional SP and an optional CR before LF
 	text := strings.TrimSuffix(sb.String(), "\r")
+	text = strings.TrimSuffix(text, " ")
 	return endsWithNonSyncLiteral(text) || (partialHeader && strings.HasSuffix(text, "+}"))
 }
 
